@@ -1683,7 +1683,13 @@ def from_text(
     reader = _TextReader(
         text, idna_codec, one_rr_per_rrset, origin, relativize, relativize_to
     )
-    return reader.read()
+    try:
+        return reader.read()
+    except dns.exception.DNSException:
+        raise
+    except Exception as e:
+        # E.g. the ValueError for "rcode 99999" or an out-of-range EDNS version.
+        raise dns.exception.SyntaxError(str(e)) from e
 
 
 def from_file(
